@@ -52,6 +52,14 @@ def check_case(c, m, stim, target, newvals):
             got = int(vals[lane]) if m != 2 else int(vals[lane] == 3)
             if exp is not None and exp != got:
                 return f'callback for line {li} lane {lane} was given value {got}, freshly computed value is {exp}'
+    # any callable is a callback -- also an object whose truth value is False (a list subclass that records what it is shown, still empty)
+    class Recorder(list):
+        def __call__(self, line, values):
+            self.append(line.index)
+    rec = Recorder()
+    lc.run_logicsim(c, m, stim, False, False, inject_cb=rec)
+    if list(rec) != expected_seq:
+        return f'a callback OBJECT with a False truth value (empty list subclass with __call__) was shown {list(rec)[:12]}..., the evaluated signals are {expected_seq[:12]}...'
     if target is None:
         return None
     # overriding callback
